@@ -352,7 +352,7 @@ def main(prop, tier, seed, replay_path=None):
     if not any(it["signature"].startswith("ElemJacobian|forward|logit") for it in v2.items):
         raise MachineryError("C04 self-test: wrong closed form accepted")
     rc, n_unlisted, known = verdict.finish()
-    cov = {"states": 1, "transitions": 1, "traces_validated_against_impl": n_el + n_st,
+    cov = {"states": int(max(1, r.distinct)), "transitions": int(max(1, r.generated)), "traces_validated_against_impl": n_el + n_st,
            "samples": [spec["configs"][7], {"bounds": spec["bounds"][1], "fracs": spec["fracs"][:3]}],
            "evaluations": n_el + n_st, "distinct_nontrivial": n_dist + ncfg,
            "rule": "structure: every configuration (<= 3 parameters x kinds x options x composite/flow transform) enumerated by TLC with its stage list, compared with the composition of the public elementary classes; elementary: lattice of bounds x points from the specification, closed-form trees evaluated at 50 digits; distinct = distinct (class, namespace, width, bounds, point) + configurations",
